@@ -24,10 +24,11 @@ import (
 // Net connects clients to one gRIBI server implementation.
 type Net struct {
 	Srv spb.GRIBIServer
-	// Window is the number of unread messages a sender may have outstanding in
-	// one direction before Send blocks (0 = unbounded).
-	Window  int
-	Streams []*Stream
+	// Window is the number of unread server->client messages before the server's
+	// Send blocks (0 = unbounded); ReqWindow is the same for client->server.
+	Window    int
+	ReqWindow int
+	Streams   []*Stream
 	// OnModifyOpen, if set, may wrap the server-side stream (fault middleboxes).
 	WrapModify func(spb.GRIBI_ModifyServer) spb.GRIBI_ModifyServer
 	WrapGet    func(spb.GRIBI_GetServer) spb.GRIBI_GetServer
@@ -192,7 +193,7 @@ func (st *Stream) cliSend(m proto.Message) error {
 	if st.cliErr != nil || st.finished || st.c2s.closed {
 		return io.EOF
 	}
-	if w := st.net.Window; w > 0 && len(st.c2s.q) >= w {
+	if w := st.net.ReqWindow; w > 0 && len(st.c2s.q) >= w {
 		simrt.WaitUntil("cli.Send "+st.name(), "window space on "+st.name(), 0, func() bool {
 			return len(st.c2s.q) < w || st.cliErr != nil || st.finished
 		})
